@@ -5,6 +5,7 @@ package composite
 import (
 	"fmt"
 	"reflect"
+	"sort"
 	"strconv"
 	"strings"
 	"sync"
@@ -118,8 +119,16 @@ func normalizeIDs(v interface{}, id string) interface{} {
 		return o
 	case []interface{}:
 		o := make([]interface{}, len(t))
+		allStrings := len(t) > 0
 		for i := range t {
 			o[i] = normalizeIDs(t[i], id)
+			if _, ok := o[i].(string); !ok {
+				allStrings = false
+			}
+		}
+		if allStrings {
+			// lists of names (ControllerRevision children, finalizers): order carries no meaning
+			sort.Slice(o, func(i, j int) bool { return o[i].(string) < o[j].(string) })
 		}
 		return o
 	case string:
